@@ -248,6 +248,8 @@ def run(ctx: Ctx):
 
     # ---- S6 sos / eos insertion and stripping -------------------------------------------------
     _s6(ctx, rel)
+    # ---- S8 statistics: an 'unknown' marker in a per-class table is absorbing ---------------------------------------
+    _sticky_sentinels(ctx)
     plumbing(ctx, "S7")
     return dict(
         explanation=(
@@ -513,10 +515,62 @@ MANIFEST = dict(
 )
 
 
+def _sticky_sentinels(ctx: Ctx):
+    """S8: where a per-class table of the report stores a negative sentinel (`T[k] = -1`: unknown for this class), every
+    accumulating write `T[k] = prev + x` with `prev = T.get(k, ...)` must be guarded by a test that `prev` is not the
+    sentinel - otherwise a later known occurrence adds onto the marker and a wrong positive figure is reported."""
+    col, pkg = ctx.col, ctx.pkg
+    f = pkg.func("_datasets::_info_and_validate")
+    rel = f.module.relname
+    pm = parent_map(f.node)
+    rd = ReachingDefs(f.node)
+    sent = {}
+    for n in own_nodes(f.node):
+        if isinstance(n, ast.Assign) and len(n.targets) == 1 and isinstance(n.targets[0], ast.Subscript) \
+                and isinstance(n.targets[0].value, ast.Name):
+            v = n.value
+            if isinstance(v, ast.UnaryOp) and isinstance(v.op, ast.USub) and isinstance(v.operand, ast.Constant):
+                sent.setdefault(n.targets[0].value.id, []).append(n)
+    nacc = 0
+    for tname, marks in sent.items():
+        for n in own_nodes(f.node):
+            if not (isinstance(n, ast.Assign) and len(n.targets) == 1 and isinstance(n.targets[0], ast.Subscript)
+                    and isinstance(n.targets[0].value, ast.Name) and n.targets[0].value.id == tname):
+                continue
+            if not isinstance(n.value, ast.BinOp):
+                continue
+            prevs = []
+            for x in ast.walk(n.value):
+                if isinstance(x, ast.Name) and isinstance(x.ctx, ast.Load):
+                    for d in rd.defs_of(x):
+                        if d.kind == "assign" and isinstance(d.value, ast.Call) and isinstance(d.value.func, ast.Attribute) \
+                                and d.value.func.attr == "get" and u(d.value.func.value) == tname:
+                            prevs.append(x.id)
+                elif isinstance(x, ast.Call) and isinstance(x.func, ast.Attribute) and x.func.attr == "get" and u(x.func.value) == tname:
+                    prevs.append(u(x))
+            if not prevs:
+                continue
+            nacc += 1
+            guarded = False
+            for t, pol in guards_of(pm, n):
+                for c in ast.walk(t):
+                    if isinstance(c, ast.Compare) and len(c.ops) == 1 and u(c.left) in prevs and pol:
+                        op, k = c.ops[0], c.comparators[0]
+                        kv = k.value if isinstance(k, ast.Constant) else (-k.operand.value if isinstance(k, ast.UnaryOp) and isinstance(k.operand, ast.Constant) else None)
+                        if (isinstance(op, ast.GtE) and kv == 0) or (isinstance(op, ast.Gt) and kv == -1) or (isinstance(op, ast.NotEq) and kv == -1):
+                            guarded = True
+            col.ob("G16", "S8", f"{rel}::_info_and_validate::{tname}::unknown-marker-is-absorbing", guarded,
+                   f"`{u(n)}` adds onto the previous entry of `{tname}` without testing that it is not the -1 'unknown' "
+                   f"marker written at line {marks[0].lineno}: a class that once lacked boundaries gets a positive, wrong "
+                   f"figure instead of -1", rel, n.lineno, sample=dict(previous=prevs, markers=[m.lineno for m in marks]))
+    col.floor("sentinel_tables", nacc, 1)
+
+
 def _mutants():
     from selftest.mutate import Mutant as M
     D = "_datasets.py"
     return [
+        M("unknown-marker-not-sticky", "_datasets.py", "if rcount >= 0 and end > start >= 0:", "if end > start >= 0:", "unknown-marker-is-absorbing"),
         M("repair-without-permission", D, "if fix is not None and T + fix >= ali.shape[0] > T:",
           "if T + fix >= ali.shape[0] > T:", "needs-fix-permission"),
         M("drop-else-raise", D,
